@@ -4,7 +4,7 @@ import NdnGen.C08
 #print axioms Ndn.C08.enc_wellformed
 #print axioms Ndn.C08.writeTlNum_shortest
 #print axioms Ndn.C08.uint_smallest_width
-#print axioms Ndn.C08.parse_enc_roundtrip_partial
+#print axioms Ndn.C08.parse_enc_roundtrip
 #print axioms Ndn.C08.unknown_noncritical_skipped
 #print axioms Ndn.C08.unknown_critical_rejected
 #print axioms Ndn.Gen.C08.shipped_wf
